@@ -47,5 +47,7 @@ NNext == NEvent \/ (\E c \in Conns : NLin(c)) \/ NDone
 Accepted == npos = 0 => PrintT(<<"VF", "ACC", nh>>)
 (* diagnosis run on rejected histories only: the deepest position at which a branch got stuck names the offending event *)
 Stuck == (Diag /\ npos > 0 /\ (IF npos <= Len(EvOf(nh)) THEN After(np, EvOf(nh)[npos]) = {} ELSE ~PFinalOk(np)))
-           => PrintT(<<"VF", "STUCK", nh, npos, [c \in Conns |-> IF np.out[c] = <<>> THEN <<"-", 0, "-">> ELSE <<Head(np.out[c]).k, Head(np.out[c]).t, Head(np.out[c]).st>>]>>)
+           => LET c == IF npos <= Len(EvOf(nh)) THEN EvOf(nh)[npos][1] ELSE 0
+                  q == IF c \in Conns THEN np.out[c] ELSE <<>> IN
+              PrintT(<<"VF", "STUCK", nh, npos, IF q = <<>> THEN "-" ELSE Head(q).k, IF q = <<>> THEN 0 ELSE Head(q).t>>)
 =============================================================================
